@@ -18,8 +18,8 @@ RULE = ("case = (npre npost v0 (v1..vn)): a view value v0 drawn from the grammar
         "rebuild), nesting depth <= 4 (quick) / 5 (thorough), is built and mounted between npre/npost text siblings, "
         "rebuilt with v1..vn (each either a mutation of the previous value — text/attribute edits, branch switches, "
         "insertions/removals in lists, shape changes — or an independent draw) and unmounted; the harness also renders "
-        "every vi from scratch between the same siblings. All draws come from the PRNG seeded by VERIF_SEED. Cases "
-        "containing a keyed list are checked by the oracle only (keyed lists are modelled and proved in C11). "
+        "every vi from scratch between the same siblings. All draws come from the PRNG seeded by VERIF_SEED. The "
+        "item view of a keyed list is a function of its key (tachys keeps the state of a retained key). "
         "Non-trivial = some vi differs from its predecessor; distinct = distinct case hash.")
 TRUSTED = [
     "Coq 8.16.1 kernel (coqc); every theorem of Properties_C03.v is 'Closed under the global context'",
@@ -213,8 +213,8 @@ def generate(rng, tier):
             vs.append(cur)
         npre, npost = rng.choice([(0, 0), (1, 1), (0, 1), (1, 0), (2, 2), (0, 2)])
         uses_keyed = any(has(v, 8) for v in [v0] + vs)
-        kind = "keyed (oracle only)" if uses_keyed else ("with-staticvec" if any(nodeless(v) for v in [v0] + vs) else "core")
-        yield dict(case=C.norm([npre, npost, v0, vs]), kind=kind, compare=not uses_keyed)
+        kind = "with-keyed" if uses_keyed else ("with-staticvec" if any(nodeless(v) for v in [v0] + vs) else "core")
+        yield dict(case=C.norm([npre, npost, v0, vs]), kind=kind, compare=True)
 
 
 def valid_view(v, depth=0):
@@ -281,8 +281,6 @@ def valid_case(item):
     if not (0 <= c[0] <= 3 and 0 <= c[1] <= 3 and isinstance(c[3], list) and c[3]):
         return False
     if not valid_view(c[2]) or not all(valid_view(v) for v in c[3]):
-        return False
-    if item.get("compare", True) and any(has(v, 8) for v in [c[2]] + c[3]):
         return False
     return True
 
